@@ -140,7 +140,8 @@ class PinDevice(Device):
             self.buf = bytearray(12)
             self.new_pins_seen.append(pin)
             self.crash_point("before-change-cmd")
-            r = self.choose(["accept", "refuse", "sw-in", "sw-out", "timeout", "link"], "newpin")
+            r = self.choose(["accept", "refuse", "sw-in", "sw-out", "timeout", "link"]
+                            + (["refuse-02", "refuse-55", "refuse-ff"] if sgx else []), "newpin")
             if not self.unlocked:
                 r = "refuse"
             if r == "accept":
@@ -156,6 +157,9 @@ class PinDevice(Device):
                 if sgx:
                     return bytes([0x80, cmd, 0])
                 raise SW(0x69A0)
+            if r.startswith("refuse-"):
+                # SGX: any answer other than 1 means the password was not changed
+                return bytes([0x80, cmd, int(r[7:], 16)])
             if r == "sw-in":
                 raise SW(0x6A99)
             if r == "sw-out":
